@@ -65,43 +65,74 @@ Theorem C15_env : forall d replace parent key,
     else match lookup_last key d with Some v => Some v | None => lookup_env key parent end.
 Proof. exact child_env. Qed.
 
-(** For ANY nesting [fs] of cd / prefix / try blocks (outermost first), the command
-    handed to the runner is  cd <dir> && p1 && ... && pn && cmd. *)
-Theorem C15_command_composition : forall cc fs cmd,
-  cfg_sane cc = true -> truthy (want (cc_run cc) no_kw Dry) = false ->
-  snd (fst (run_program cc (nest fs [SRun cmd])))
-  = [Some (composed fs cmd, want (cc_run cc) no_kw Shell,
-           generate_env (want (cc_run cc) no_kw Env) (want (cc_run cc) no_kw ReplaceEnv)
-                        (cc_parent cc))].
+(** For ANY nesting [fs] of cd / prefix / try blocks (outermost first) and any
+    accepted keyword arguments, the command handed to the runner is
+    cd <dir> && p1 && ... && pn && cmd. *)
+Theorem C15_command_composition : forall cc fs cmd k,
+  rejected (cc_run cc) k = None -> truthy (want (cc_run cc) k Dry) = false ->
+  snd (fst (run_program cc (nest fs [SRun cmd k false])))
+  = [Some (composed fs cmd, want (cc_run cc) k Shell,
+           generate_env (want (cc_run cc) k Env) (want (cc_run cc) k ReplaceEnv) (cc_parent cc))].
 Proof. exact command_composition. Qed.
 
-(** Both stacks are restored by every statement, from any state, whether its body
-    returned, raised, or raised and was caught. *)
+(** Both stacks are restored by every statement, from any state, for EVERY way its
+    body can be left: normally; by an Exception (application error, refused options,
+    UnexpectedExit of a failing command); by KeyboardInterrupt, SystemExit or
+    GeneratorExit; caught further out or not.  The statement quantifies over the
+    program, hence over the kind of exit ([SRaise x], failing calls).  It holds
+    because cd and prefix guard their clean-up with [finally] ([clause_of]); with an
+    [except Exception] guard it would be false ([C15_restoration_needs_finally]). *)
 Theorem C15_stacks_restored : forall cc s st, fst (fst (exec cc s st)) = st.
 Proof. exact stacks_restored. Qed.
 
-(** Flagship, part B (full strength): whole programs of nested cd / prefix / try
-    blocks around run and sudo calls -- the arguments of [start] call by call, the
-    final stacks, the propagation of the exception -- are accepted by the executable
-    specification.  ([cfg_sane]: the configured options are not themselves refused;
-    otherwise every call raises before reaching the runner.) *)
-Theorem C15_program_meets_spec : forall cc prog,
-  cfg_sane cc = true ->
+Theorem C15_stacks_restored_any_exit : forall cc b x st,
+  exec cc (SBlock b [SRaise x]) st = (st, [], match b with BTry => None | _ => Some x end).
+Proof.
+  intros cc b x st. pose proof (stacks_restored cc (SBlock b [SRaise x]) st) as R.
+  destruct b as [d|d|], st as [ps cs]; cbn in *; rewrite ?removelast_last; reflexivity.
+Qed.
+
+Theorem C15_restoration_needs_finally : forall cc,
+  let cl := fun _ : block => CExceptException in
+  fst (fst (exec_with cl cc (SBlock (BPrefix "p") [SRaise XKbd]) c0)) = mkC ["p"%string] [] /\
+  fst (fst (exec_with cl cc (SBlock (BCd "d") [SRaise XSysExit]) c0)) = mkC [] ["d"%string] /\
+  fst (fst (exec_with cl cc (SBlock (BCd "d") [SRaise XGenExit]) c0)) = mkC [] ["d"%string] /\
+  fst (fst (exec_with cl cc (SBlock (BPrefix "p") [SRaise XBoom]) c0)) = c0.
+Proof. exact leaky_clause. Qed.
+
+(** Flagship, part B (partial): whole programs of nested cd / prefix / try blocks
+    around run and sudo calls with arbitrary keyword arguments, failing commands and
+    raises of every kind -- the arguments of [start] call by call (nothing for refused
+    calls), the final stacks, the exception that comes out -- are accepted by the
+    executable specification, provided no sudo call passes [watchers=None].  Missing:
+    exactly that case, where the statement is false ([C15_sudo_watchers_none_refuted],
+    F-C15b). *)
+Theorem C15_program_meets_spec_partial : forall cc prog,
+  guard_prog prog = true ->
   spec_ok_ctx cc prog (snd (fst (run_program cc prog))) (fst (fst (run_program cc prog)))
               (snd (run_program cc prog)) = true.
 Proof. exact program_meets_spec. Qed.
 
 (** sudo wraps the same prefixed command with the prompt, [--preserve-env] naming the
     variables of the effective env option (keyword argument, else run.env) and the
-    user flags -- below any nesting of blocks. *)
-Theorem C15_sudo_wraps_prefixed : forall cc fs cmd u e,
-  cfg_sane cc = true ->
-  truthy (want (cc_run cc) (only_env e) Dry) = false ->
-  snd (fst (run_program cc (nest fs [SSudo cmd u e])))
-  = [Some (sudo_wrapped cc u e (composed fs cmd), want (cc_run cc) (only_env e) Shell,
-           generate_env (want (cc_run cc) (only_env e) Env)
-                        (want (cc_run cc) (only_env e) ReplaceEnv) (cc_parent cc))].
+    user flags -- below any nesting of blocks, with any further run keyword arguments. *)
+Theorem C15_sudo_wraps_prefixed_partial : forall cc fs cmd u k,
+  sudo_refuses k = false ->
+  rejected (cc_run cc) k = None -> truthy (want (cc_run cc) k Dry) = false ->
+  snd (fst (run_program cc (nest fs [SSudo cmd u k false])))
+  = [Some (sudo_wrapped cc u k (composed fs cmd), want (cc_run cc) k Shell,
+           generate_env (want (cc_run cc) k Env) (want (cc_run cc) k ReplaceEnv) (cc_parent cc))].
 Proof. exact sudo_wraps_prefixed. Qed.
+
+(** F-C15b: [run(..., watchers=None)] means "not given"; [sudo(..., watchers=None)]
+    raises TypeError ([list(None)]) and starts nothing. *)
+Theorem C15_sudo_watchers_none_refuted :
+  exists cc prog,
+    snd (run_program cc [SRun "ls" (mkKw (fun o => match o with Watchers => Some ONone | _ => None end) None []) false]) = None /\
+    run_program cc prog = (c0, [None], Some XType) /\
+    spec_ok_ctx cc prog (snd (fst (run_program cc prog))) (fst (fst (run_program cc prog)))
+                (snd (run_program cc prog)) = false.
+Proof. exact sudo_watchers_none_refuted. Qed.
 
 (** Non-vacuity. *)
 Example C15_example_interactions :
@@ -117,15 +148,18 @@ Proof. vm_compute. repeat split; reflexivity. Qed.
 
 Example C15_example_program :
   let cc := mkCC (mkCfg (fun _ => None) ONone) "P:" (OStr "bob") [("H", "/h")] in
+  let envk := mkKw (fun o => match o with Env => Some (ODict [("X", "1")]) | _ => None end) None [] in
   let prog := [SBlock (BCd "/a") [SBlock (BPrefix "p1")
-                 [SBlock BTry [SBlock (BCd "b c") [SRun "ls"; SRaise; SRun "never"]];
-                  SSudo "w" None (Some (ODict [("X", "1")]))]];
-               SRun "end"] in
-  cfg_sane cc = true /\
-  map (fun c => match c with Some (cmd, _, _) => cmd | None => ""%string end)
+                 [SBlock BTry [SBlock (BCd "b c") [SRun "ls" no_kw false; SRaise XKbd; SRun "never" no_kw false]];
+                  SSudo "w" None envk false;
+                  SBlock BTry [SBlock (BPrefix "p1") [SRun "false" no_kw true; SRun "never" no_kw false]];
+                  SRun "x" (mkKw (fun _ => None) None ["bogus"]) false]];
+               SRun "end" no_kw false] in
+  map (fun c => match c with Some (cmd, _, _) => cmd | None => "-"%string end)
       (snd (fst (run_program cc prog)))
-  = ["cd /a/b\ c && p1 && ls"; "sudo -S -p 'P:' --preserve-env='X' -H -u bob cd /a && p1 && w"; "end"]%string /\
-  fst (fst (run_program cc prog)) = c0 /\ snd (run_program cc prog) = false.
+  = ["cd /a/b\ c && p1 && ls"; "sudo -S -p 'P:' --preserve-env='X' -H -u bob cd /a && p1 && w";
+     "cd /a && p1 && p1 && false"; "-"]%string /\
+  fst (fst (run_program cc prog)) = c0 /\ snd (run_program cc prog) = Some XType.
 Proof. vm_compute. repeat split; reflexivity. Qed.
 
 (** Tie to the source text: the body of [normalize_hide], regenerated from
@@ -167,10 +201,10 @@ Proof. exact hide_table. Qed.
     the child without telling sudo to preserve it.  The witness is in corpus/C15 and
     now has to pass on the implementation. *)
 Theorem C15_before_fix_sudo_historical_refuted :
-  exists cc u e prefixed,
-    cfg_sane cc = true /\
-    want (cc_run cc) (only_env e) Env = ODict [("A", "x")] /\
-    sudo_command_before_fix (cc_prompt cc) (match u with Some x => x | None => cc_user cc end) e prefixed
+  exists cc u k prefixed,
+    want (cc_run cc) k Env = ODict [("A", "x")] /\
+    sudo_command_before_fix (cc_prompt cc) (match u with Some x => x | None => cc_user cc end)
+                            (kw k Env) prefixed
     = "sudo -S -p 'P:' whoami"%string /\
-    sudo_wrapped cc u e prefixed = "sudo -S -p 'P:' --preserve-env='A' whoami"%string.
+    sudo_wrapped cc u k prefixed = "sudo -S -p 'P:' --preserve-env='A' whoami"%string.
 Proof. exact sudo_before_fix_refuted. Qed.
